@@ -166,7 +166,8 @@ def replay_instruction(ctx, prop, ob, res, extra_setup=None):
         setup.append("c.%s = 0x%02x" % (r, regs[r]))
     setup.append("c.sp = 0x%04x" % regs["sp"])
     setup.append("c.pc = 0x%04x" % regs["pc"])
-    for fl in ("halted", "stopped", "haltbug"):
+    extra = [nm for nm in ("eiPending", "eiDelay", "imeScheduled", "enableInterrupts") if cc.has_field(eng, b, nm)]
+    for fl in ["halted", "stopped", "haltbug"] + extra:
         setup.append("c.%s = %s" % (fl, "true" if mval(model, cc.fld(eng, pre, b, fl)) else "false"))
     setup.append("i.WriteIE(0x%02x)" % ie)
     setup.append("i.WriteIF(0x%02x)" % iff)
